@@ -409,6 +409,7 @@ func c02FreshIface(c *Ctx, h *ssa.Function) {
 func runC03(c *Ctx) {
 	c.rule("scc-closed", "the copier's recursive component consists of the dispatcher and its six handlers (a new member must satisfy the rules below)", 1)
 	c.rule("ptr-descent-memo", "every pointer dereference (Elem of a non-interface value) feeding a descent inside the component is dominated, in the same function, by a lookup in the pointer memo whose hit branch returns, and by the memo registration for that pointer", 1)
+	c.rule("slice-descent-memo", "the elements of a slice are descended into only after a lookup in (and registration with) a memo keyed on the input slice, as for pointers and maps (a slice can contain itself through an interface element)", 1)
 	c.rule("map-descent-memo", "iteration over a map's entries inside the component is dominated by a lookup in the map memo keyed on the input map whose hit branch returns (the hit condition may only be conjoined with settable-ness of the output), and by the memo registration", 1)
 	c.rule("iface-routes-through-handlers", "the interface handler unwraps only the interface itself: it contains no pointer dereference or map iteration of its own (Ptr/Map payloads go through the memoising handlers)", 1)
 	c.rule("single-memo", "no member of the component creates a fresh copier (newDeepCopier / package-level deepCopyValue / realDeepCopy): a fresh memo forgets cycles and sharing", 1)
@@ -610,6 +611,52 @@ func runC03(c *Ctx) {
 	}
 	if nMap == 0 {
 		c.bad("map-descent-memo", "copier", cp.hMap.Pos(), "no map iteration found in the copier")
+	}
+	// ---- slice descent -------------------------------------------------------------------------------
+	// a slice can be reached from its own elements (through an interface element: s[0] = s); like pointers and maps
+	// its elements may only be descended into after a memo keyed on the input slice was consulted and updated
+	{
+		f := cp.hSlice
+		var descent *ssa.Call
+		for _, i := range allInstrs(f) {
+			if ci, ok := i.(*ssa.Call); ok {
+				if callee := staticCallee(ci); callee != nil && (callee == origin(cp.hArray) || callee == origin(cp.dispatch)) {
+					descent = ci
+				}
+			}
+		}
+		name := relName(f) + "#elements"
+		if descent == nil {
+			c.bad("slice-descent-memo", name, f.Pos(), "the slice handler does not descend into the elements")
+		} else {
+			var lk *ssa.Lookup
+			var mu *ssa.MapUpdate
+			for _, i := range allInstrs(f) {
+				switch x := i.(type) {
+				case *ssa.Lookup:
+					if x.CommaOk && reachableFromRecv(f, x.X) && domI(x, descent) {
+						lk = x
+					}
+				case *ssa.MapUpdate:
+					if reachableFromRecv(f, x.Map) && domI(x, descent) {
+						mu = x
+					}
+				}
+			}
+			switch {
+			case lk == nil:
+				c.bad("slice-descent-memo", name, descent.Pos(), "the elements of a slice are descended into without a dominating lookup in a memo of the copier: a slice that is reachable from its own elements (s[0] = s through an interface element) is copied forever - Config dies with a stack overflow")
+			case mu == nil:
+				c.bad("slice-descent-memo", name, descent.Pos(), "the slice is not registered in a memo before its elements are copied")
+			default:
+				okH, why := hitReturns(f, lk)
+				keyOK := derivesAny(lk.Index, func(x ssa.Value) bool {
+					cc, ok := x.(*ssa.Call)
+					return ok && calleeFullName(cc) == "(reflect.Value).Pointer" && cc.Call.Args[0] == ssa.Value(f.Params[1])
+				}, nil)
+				c.check(okH && keyOK, "slice-descent-memo", name, descent.Pos(), "memo lookup keyed on the input slice dominates the descent; a hit returns; registration precedes the descent", "memo discipline broken: "+why+" keyOnInput="+boolStr(keyOK))
+			}
+		}
 	}
 	// the interface handler obligation (counted once when clean)
 	clean := true
